@@ -48,6 +48,9 @@ NATIVE = {
     'n_find_header_window_limit': dict(crate='multiboot2-header', file='header.rs', props=['C13'],
         bound='buffer lengths {8190, 8192, 8196, 8200, 8216, 8448} x magic positions 8150..=8210 x header lengths {16, 24, 200, 400} (1464 cases), zero-filled otherwise',
         functions=['Multiboot2Header::find_header (8192-byte search window clause)']),
+    'n_elf_sections_tag_layout': dict(crate='multiboot2', file='elf_sections.rs', props=['C19', 'C01', 'C04'],
+        bound='every declared size 20..=219 of an ELF-sections tag (0..=3 ELF64 entries of 64 bytes), marker contents; plus one image with three distinct field words (201 cases)',
+        functions=['ElfSectionsTag layout assumed by Verus (elf_tag_wf): fields at offsets 8/12/16, tail at offset 20 with size-20 elements, size_of_val; ElfSectionsTag::sections entry addresses (Kani cannot compile this type)']),
     'n_builder_roundtrip': dict(crate='multiboot2', file='builder.rs', props=['C06'],
         bound='real Builder run natively on 1711 cases: empty, full, every single slot, every 18-of-19 subset, all pairs, 1500 pseudo-random subsets (seeded by VERIF_SEED); three call orders; repeated setter calls; 0..=3 modules (descending addresses) / SMBIOS / custom tags (duplicate id) interleaved; oracle = supplied tag images in the documented order + end tag vs BootInformation::load(..).tags()',
         functions=['Builder::build and all setters on COMPILED code (cross-check of the Verus proof; Kani cannot compile the builder)']),
